@@ -1020,6 +1020,81 @@ def gen_UploadFacts():
     return "".join(out), {x.path: x.digest for x in (us, si, di)}
 
 
+def gen_ManagerFacts():
+    """Facts and pins for ShardFileManager's bookkeeping of registered shard files (C05/C11/C18, Model/Manager.v)."""
+    fm = Src(os.path.join(REPO, "mdb_shard/src/shard_file_manager.rs"))
+    cs = Src(os.path.join(REPO, "mdb_shard/src/constants.rs"))
+    sf = Src(os.path.join(REPO, "mdb_shard/src/shard_format.rs"))
+    out = [PRELUDE]
+    m = cs.one(r"\bref CHUNK_INDEX_TABLE_MAX_SIZE\s*:\s*usize\s*=\s*([^;]+);", "CHUNK_INDEX_TABLE_MAX_SIZE")
+    out.append("Definition chunk_index_table_max_size : N := %s.\n" % ExprTr({}).tr(m.group(1)))
+    # the element stored per truncated hash
+    fm.pin("struct ChunkCacheElement { cas_start_index: u32, cas_chunk_offset: u16, shard_index: u16, }", "ChunkCacheElement")
+    fm.pin("struct KeyedShardCollection { hmac_key: HMACKey, shard_list: Vec<Arc<MDBShardFile>>, chunk_lookup: HashMap<u64, ChunkCacheElement>, }", "KeyedShardCollection")
+    nb = fm.fn_body("new", 1)
+    if "shard_collections: vec![KeyedShardCollection::new(HMACKey::default())], collection_by_key: HashMap::from([(HMACKey::default(), 0)])," not in nb:
+        raise TranslateError("ShardBookkeeper::new: the unkeyed collection is no longer created first")
+    rg = fm.fn_body("register_shards")
+    seq = ["if sbkp_lg.shard_lookup_by_shard_hash.contains_key(&s.shard_hash) { continue; }",
+           "let shard_hmac_key = s.shard.metadata.chunk_hash_hmac_key;",
+           "let n_current_collections = sbkp_lg.shard_collections.len();",
+           "let shard_col_index: usize = *sbkp_lg.collection_by_key.entry(shard_hmac_key).or_insert(n_current_collections);",
+           "if shard_col_index == n_current_collections { sbkp_lg.shard_collections.push(KeyedShardCollection::new(shard_hmac_key)); }",
+           "let update_chunk_lookup = sbkp_lg.total_indexed_chunks < *CHUNK_INDEX_TABLE_MAX_SIZE;",
+           "let shard_col = &mut sbkp_lg.shard_collections[shard_col_index];",
+           "shard_index = shard_col.shard_list.len();",
+           "shard_col.shard_list.push(s.clone());",
+           "let old_chunk_lookup_size = shard_col.chunk_lookup.len();",
+           "if update_chunk_lookup { let insert_hashes = s.read_all_truncated_hashes()?;",
+           "for (h, (cas_start_index, cas_chunk_offset)) in insert_hashes { if cas_chunk_offset > u16::MAX as u32 { continue; }",
+           "let cas_chunk_offset = cas_chunk_offset as u16;",
+           "shard_col.chunk_lookup.insert( h, ChunkCacheElement { cas_start_index, cas_chunk_offset, shard_index: shard_index as u16, }, );",
+           "sbkp_lg .shard_lookup_by_shard_hash .insert(s.shard_hash, (shard_col_index, shard_index));"]
+    at = 0
+    for p_ in seq:
+        k = rg.find(p_, at)
+        if k < 0:
+            raise TranslateError("register_shards: statement missing or out of order: %r" % p_)
+        at = k + len(p_)
+    if rg.count("chunk_lookup.insert(") != 1 or rg.count("total_indexed_chunks") != 2 or rg.count("shard_list.push(") != 1:
+        raise TranslateError("register_shards: the index or the counter is touched in another place")
+    exact = ("num_inserted_chunks = shard_col.chunk_lookup.len() - old_chunk_lookup_size;" in rg
+             and "sbkp_lg.total_indexed_chunks += num_inserted_chunks;" in rg)
+    whole = re.search(r"total_indexed_chunks \+= insert_hashes\.len\(\)|num_inserted_chunks = insert_hashes\.len\(\)", rg) is not None
+    if exact == whole:
+        raise TranslateError("register_shards: cannot tell what total_indexed_chunks is advanced by")
+    out.append("Definition index_counts_inserted_entries : bool := %s.\n" % ("true" if exact else "false"))
+    # the routed query: the in-memory shard first, then every collection in order, under the collection's key
+    q = fm.fn_body("chunk_hash_dedup_query")
+    body = ("{ let lg = self.current_state.read().await; let ret = lg.chunk_hash_dedup_query(query_hashes); if ret.is_some() { return Ok(ret); } } "
+            "let shard_lg = self.shard_bookkeeper.read().await; for shard_col in shard_lg.shard_collections.iter() { let query_hash = { "
+            "if shard_col.hmac_key == HMACKey::default() { truncate_hash(&query_hashes[0]) } else { truncate_hash(&query_hashes[0].hmac(shard_col.hmac_key)) } }; "
+            "if let Some(cce) = shard_col.chunk_lookup.get(&query_hash) { let si = &shard_col.shard_list[cce.shard_index as usize]; "
+            "if let Some((count, fdse)) = si.chunk_hash_dedup_query_direct(query_hashes, cce.cas_start_index, cce.cas_chunk_offset as u32)? { "
+            "return Ok(Some((count, fdse))); } } } Ok(None)")
+    if q.strip() != body:
+        raise TranslateError("ShardFileManager::chunk_hash_dedup_query: body changed")
+    # flush: the in-memory shard is written, replaced by an empty one, and the file is registered
+    fl = fm.fn_body("flush")
+    for p_ in ["if lg.is_empty() { return Ok(None); }", "new_shard_path = lg.write_to_directory(&self.shard_directory)?; *lg = MDBInMemoryShard::default();",
+               "self.register_shards(&[MDBShardFile::load_from_file(&new_shard_path)?]).await?;"]:
+        if p_ not in fl:
+            raise TranslateError("ShardFileManager::flush changed: %r" % p_)
+    if not fl.index("write_to_directory") < fl.index("self.register_shards("):
+        raise TranslateError("flush: order changed")
+    ac = fm.fn_body("add_cas_block")
+    if ac.strip() != ("let mut lg = self.current_state.write().await; lg.add_cas_block(cas_block_contents)?; "
+                      "if lg.shard_file_size() >= self.target_shard_min_size { drop(lg); self.flush().await?; } Ok(())"):
+        raise TranslateError("ShardFileManager::add_cas_block: body changed")
+    # what a shard file contributes: its chunk table, or a walk over the CAS section when it carries none
+    rt = sf.fn_body("read_all_truncated_hashes")
+    for p_ in ["if self.metadata.chunk_lookup_num_entry != 0 {", "for _ in 0..self.metadata.chunk_lookup_num_entry { ret.push((read_u64(reader)?, (read_u32(reader)?, read_u32(reader)?))); }",
+               "ret.push((truncate_hash(&chunk.chunk_hash), (cas_index, chunk_index)));", "cas_index += 1 + cas_header.num_entries;"]:
+        if p_ not in rt:
+            raise TranslateError("read_all_truncated_hashes changed: %r" % p_)
+    return "".join(out), {x.path: x.digest for x in (fm, cs, sf)}
+
+
 GROUPS = {
     "GearTable": gen_GearTable,
     "ChunkConsts": gen_ChunkConsts,
@@ -1033,4 +1108,5 @@ GROUPS = {
     "SfFacts": gen_SfFacts,
     "ReconFacts": gen_ReconFacts,
     "UploadFacts": gen_UploadFacts,
+    "ManagerFacts": gen_ManagerFacts,
 }
